@@ -167,7 +167,8 @@ def classify(x, flavour):
     elif e == "Probe":
         kind = "probe-failed"
     elif e == "Late":
-        kind = "late-application-call"
+        # server-side events arrived after the case had been closed: the attribution of events to cases failed
+        return idx, None, "case %d (%s): application/completion events arrived after the quiescence barrier: %s" % (idx, cls, json.dumps(rej))
     else:
         kind = "unexpected-" + str(e)
     events = [ev.get("e") + (str(ev.get("ec")) if ev.get("e") == "Complete" else "") for ev in evs[2:]]
